@@ -18,8 +18,9 @@ Everything is freshly constructed; the history is one episode. After EVERY dispa
            IsCompletedObserver == model (command 1701)
   oracle : the six clauses of coq/spec/ResidualSpec.v evaluated by the extracted boolean specification on the
            implementation's own graph and schedule rows (command 1702).
-Zero-duration instances form a separate stream: tied to the model as well, clause failures there are counted
-(`out_of_scope_zero_duration:*`) and not raised (the property is stated for positive durations).
+Zero-duration instances form a separate stream (counted in the distribution). The property is stated for
+positive durations; the theorems of coq/properties/C17.v only need durations >= 0, so that stream is tied AND
+judged by the oracle like the rest.
 What dispatcher.reset() does is property C12's business: `reset_at_end` only monitors the model's reset
 (`secondary_mismatch:reset`), it never raises.
 """
@@ -80,7 +81,8 @@ def rows_of(dispatcher):
 class C17(Check):
     pid = "C17"
     assumptions = [
-        "positive durations, every operation has >= 1 machine, every job non-empty",
+        "durations >= 0 (the property says positive; the proofs do not need it), every operation has >= 1 "
+        "machine, every job non-empty",
         "the graph is the output of one of the four built-in builders on the dispatcher's own instance "
         "(disjunctive graph: no machine id listed twice inside one operation, as in C16)",
         "dispatcher, observers and updater freshly constructed on the initial state; one episode "
@@ -109,7 +111,7 @@ class C17(Check):
                        "removal happens strictly before the last dispatch; distinct = distinct SHA1 of the case")
 
     def budget(self):
-        return 1400 if self.tier == "quick" else 20000
+        return 3000 if self.tier == "quick" else 30000
 
     def search_budget(self):
         return 2500 if self.tier == "quick" else 20000
@@ -134,6 +136,13 @@ class C17(Check):
         elif not any(d == 0 for job in spec for _, d in job):
             j = rng.randrange(len(spec))
             spec[j][rng.randrange(len(spec[j]))][1] = 0
+        if rng.random() < 0.04:
+            # a machine id listed twice inside one operation (numpy index lists with a repeated row;
+            # outside the disjunctive builder's scope, as in C16)
+            j = rng.randrange(len(spec))
+            p = rng.randrange(len(spec[j]))
+            spec[j][p][0] = spec[j][p][0] + [spec[j][p][0][0]]
+            self.note("inst_repeated_machine_id")
         if rng.random() < 0.25:
             shift = rng.randint(1, 2)
             cut = rng.randrange(common.num_machines_of(spec) + 1)
@@ -199,7 +208,7 @@ class C17(Check):
         if st["flexible"]:
             self.note("inst_flexible")
         if st["zero"]:
-            self.note("inst_zero_duration(out of scope stream)")
+            self.note("inst_zero_duration")
         if len({len(j) for j in spec}) > 1:
             self.note("inst_irregular")
         if any(len({tuple(ms) for ms, _ in job}) < len(job) for job in spec):
@@ -335,7 +344,7 @@ class C17(Check):
 
         # oracle: the extracted specification on the implementation's graph and rows
         (positive, nonempty, nodup, all_used), clauses = oracle
-        in_scope = bool(positive and nonempty and (nodup or case["builder"] != 0))
+        in_scope = bool(nonempty and (nodup or case["builder"] != 0))
         default_opts = bool(case["rm_m"] and case["rm_j"])
         for i, (st, cl) in enumerate(zip(steps, clauses)):
             complete, feasible = bool(cl[6]), bool(cl[7])
@@ -350,7 +359,7 @@ class C17(Check):
                 if cl[k]:
                     continue
                 if not in_scope:
-                    self.note("out_of_scope_zero_duration:" + name if not positive else "out_of_scope:" + name)
+                    self.note("out_of_scope:" + name)
                     continue
                 fails.append(Failure(
                     "oracle", name,
